@@ -14,8 +14,8 @@ KEY = "leftover-code-of-abandoned-alternative"
 
 
 def go_c03(cases):
-    lines = [json.dumps({"b64": base64.b64encode(b).decode(), "pre": base64.b64encode(pre).decode(), "flags": fl, "hi": str(hi), "lo": str(lo)})
-             for b, pre, fl, hi, lo in cases]
+    lines = [json.dumps({"b64": base64.b64encode(c[0]).decode(), "pre": base64.b64encode(c[1]).decode(), "flags": c[2], "hi": str(c[3]), "lo": str(c[4]),
+                         "custom": bool(len(c) > 5 and c[5])}) for c in cases]
     rows, _ = common.run_harness(["c03"], stdin="\n".join(lines) + "\n", timeout=900)
     if len(rows) != len(cases):
         raise Broken("harness c03 returned %d rows for %d inputs (crash?)" % (len(rows), len(cases)))
@@ -56,7 +56,13 @@ def run(res, tier, seed):
         else:
             b = prog + rnd.choice([" ", "　", " ", "\v", "\f", " ", "\n"]).encode() * rnd.randrange(1, 3) + rnd.choice([b"", b")", b"]"])
         fl = pegcases.ALL_ON if rnd.random() < 0.7 else [rnd.random() < 0.5 for _ in range(7)]
-        cases.append((b, rnd.choice(pres), fl, rnd.getrandbits(64), rnd.getrandbits(64)))
+        cases.append((b, rnd.choice(pres), fl, rnd.getrandbits(64), rnd.getrandbits(64), False))
+    # registered custom dice at operand starts (the custom alternative advances the parser by itself)
+    for i in range(n // 12):
+        tok = rnd.choice(["E12", "E7", "C3T2", "C03T2", "C010T20", "C3T002", "E007"])
+        b = (rnd.choice(["", "1 + ", "x = ", "2 * ", "1d1 + "]) + tok + rnd.choice(["", " + 1", " + 力量", " * 2"]) +
+             rnd.choice(["", " )", " (1,", " ] tail", "\n[", " 体内 )"])).encode()
+        cases.append((b, rnd.choice(pres[:2]), pegcases.ALL_ON, rnd.getrandbits(64), rnd.getrandbits(64), True))
     rows = go_c03(cases)
     accepted = [(c, r) for c, r in zip(cases, rows) if r["full"]["out"]["ok"]]
     for c, r in zip(cases, rows):
@@ -81,7 +87,7 @@ def run(res, tier, seed):
     found = 0
     unstable = 0
     seen_known = set()
-    for (b, pre, fl, hi, lo), r in accepted:
+    for (b, pre, fl, hi, lo, cust), r in accepted:
         if not r.get("split_ok", True):
             res.violation({"what": "Matched + RestInput != input", "input": b.decode("utf-8", "replace"), "hex": b.hex(),
                            "matched": r["full"]["out"]["matched"], "rest": r["full"]["out"]["rest"]})
@@ -94,7 +100,10 @@ def run(res, tier, seed):
             unstable += 1
             continue
         lo_ops = set(r.get("leftover_ops") or [])
-        if KEY in known and lo_ops and lo_ops <= allowed_ops and not r.get("alone", {}).get("out", {}).get("panic"):
+        alone_ok = r.get("alone", {}).get("out", {}).get("ok") and r.get("alone_consumed_all", False)
+        # the recorded finding explains extra instructions in the compiled code of the full input; it never explains a Matched
+        # text that cannot be evaluated on its own
+        if KEY in known and alone_ok and lo_ops and lo_ops <= allowed_ops and not r.get("alone", {}).get("out", {}).get("panic"):
             seen_known |= lo_ops
             continue
         res.violation({"what": "evaluating Matched alone differs from evaluating the input: " + ",".join(bad),
@@ -107,7 +116,7 @@ def run(res, tier, seed):
     res.cov["skipped_nondeterministic_dict_order"] = unstable
     if KEY in known:
         # deterministic replay of the recorded finding
-        rr = go_c03([(b"5\n{'a':1", b"", pegcases.ALL_ON, 1, 2)])[0]
+        rr = go_c03([(b"5\n{'a':1", b"", pegcases.ALL_ON, 1, 2, False)])[0]
         if not rr.get("same_code", True):
             res.known(known[KEY]["what"] + f" [left-over opcodes seen this run: {sorted(seen_known | set(rr.get('leftover_ops') or []))}]")
 
@@ -117,14 +126,15 @@ def run(res, tier, seed):
         res.proof(info, "cd coq && make && coqc -Q . DS Properties/C03.v")
         # Matched/Rest correspondence
         items = []
-        for (b, pre, fl, hi, lo), r in accepted:
+        for (b, pre, fl, hi, lo, cust), r in accepted:
             o = r["full"]["out"]
             off = len(o["matched"].encode("utf-8", "surrogatepass"))
             items.append((b, off))
         # the offset is not exposed by Run: use len(matched)+trailing spaces is unknown -> take the K1 offset instead
-        k1rows = pegcases.go_parse([(c[0], c[2]) for c, _ in accepted], [c[1] for c, _ in accepted])
+        plain = [(c, r) for c, r in accepted if not c[5]]
+        k1rows = pegcases.go_parse([(c[0], c[2]) for c, _ in plain], [c[1] for c, _ in plain])
         mitems = []
-        for ((b, pre, fl, hi, lo), r), kr in zip(accepted, k1rows):
+        for ((b, pre, fl, hi, lo, cust), r), kr in zip(plain, k1rows):
             if kr["ok"]:
                 mitems.append((list(b), kr["offset"], list(bytes.fromhex(r["full"]["out"].get("mhex", ""))),
                                list(bytes.fromhex(r["full"]["out"].get("rhex", "")))))
@@ -134,8 +144,8 @@ def run(res, tier, seed):
         outs = common.coq_eval_many([(f"c03m_{k}", matched_v(mitems[k:k + shard])) for k in ks])
         for k, out in zip(ks, outs):
             badm += [k + int(x.replace("%N", "")) for x in common.parse_coq_list(out, "bad")]
-        k1in = [(c[0], c[2]) for c in cases]
-        k1all = pegcases.go_parse(k1in, [c[1] for c in cases])
+        k1in = [(c[0], c[2]) for c in cases if not c[5]]
+        k1all = pegcases.go_parse(k1in, [c[1] for c in cases if not c[5]])
         bad = pegcases.correspond(k1in, k1all, "c03k1")
         res.cov["correspondence"] = {"matched_rest_cases": len(mitems), "matched_rest_disagreements": len(badm), "k1_cases": len(k1in), "k1_disagreements": len(bad)}
         if badm:
